@@ -37,9 +37,16 @@ def inst(t, env, decls, aliases, depth=0):
     if k == "union": return ("union", [inst(x, env, decls, aliases, depth) for x in t[1]])
     if k == "obj": return ("obj", [(n, o, inst(x, env, decls, aliases, depth)) for n, o, x in t[1]])
     if k == "app":
-        params, kind, body = decls[t[1]]
+        params, kind, body = decls[t[1]][:3]
         args = [inst(x, env, decls, aliases, depth) for x in t[2]]
-        return inst(body, dict(zip(params, args)), decls, aliases, depth + 1)
+        env2 = dict(zip(params, args))
+        own = inst(body, env2, decls, aliases, depth + 1)
+        ext = decls[t[1]][3] if len(decls[t[1]]) > 3 else None
+        if ext is not None:
+            base = inst(("app", ext[0], ext[1]), env2, decls, aliases, depth + 1)
+            keys = {n for n, _, _ in own[1]}
+            return ("obj", [f for f in base[1] if f[0] not in keys] + list(own[1]))
+        return own
     raise ValueError(t)
 
 
@@ -82,15 +89,23 @@ def generic_pair(r):
         params = r.sample(pnames, r.choice([1, 1, 2]))
         kind = r.choice(["type", "type", "interface"])
         b = body(params, 2, must_obj=(kind == "interface"))
-        decls["G%d" % i] = (params, kind, b); order.append("G%d" % i)
+        ext = None
+        bases = [n for n in order if decls[n][1] == "interface"]
+        if kind == "interface" and bases and r.random() < 0.5:
+            # interface G1<T> extends G0<T[]>: the extends clause mentions the type parameters
+            g = r.choice(bases)
+            ext = (g, [r.choice([("param", r.choice(params)), ("arr", ("param", r.choice(params))), closed(1)]) for _ in decls[g][0]])
+            b = ("obj", [("e" + n, o, x) for n, o, x in b[1]])          # own keys differ from the inherited ones
+        decls["G%d" % i] = (params, kind, b, ext); order.append("G%d" % i)
     top = order[-1]
     main = ("app", top, [closed(1) for _ in decls[top][0]])
     lines = []
     for n, b in aliases.items(): lines.append("export type %s = %s;" % (n, show_ty(b)))
     for n in order:
-        params, kind, b = decls[n]
+        params, kind, b, ext = decls[n]
         if kind == "interface":
-            lines.append("export interface %s<%s> { %s }" % (n, ", ".join(params), "; ".join("%s%s: %s" % (k, "?" if o else "", show_ty(x)) for k, o, x in b[1])))
+            ex = "" if ext is None else " extends %s<%s>" % (ext[0], ", ".join(show_ty(x) for x in ext[1]))
+            lines.append("export interface %s<%s>%s { %s }" % (n, ", ".join(params), ex, "; ".join("%s%s: %s" % (k, "?" if o else "", show_ty(x)) for k, o, x in b[1])))
         else:
             lines.append("export type %s<%s> = %s;" % (n, ", ".join(params), show_ty(b)))
     lines.append("export type Main = %s;" % show_ty(main))
@@ -161,6 +176,12 @@ def check(run):
                 d2 = [tsgen.remap_decl((d[0], sw.get(d[1], d[1])) + tuple(d[2:]), fsw) for d in decls]
                 p2 = [(nm, tsgen.map_ty(fsw, t)) for nm, t in parsers]
                 descs.append("the names of two declared types exchanged"); moves = True
+        if i % 24 == 6:
+            # the forced family "one key, two optionalities": reverse the members of every intersection
+            frev = lambda t: ("inter", list(reversed(t[1]))) if t[0] == "inter" else t
+            d2 = [tsgen.remap_decl(d, frev) for d in d2]
+            p2 = [(nm, tsgen.map_ty(frev, t)) for nm, t in p2]
+            descs.append("intersection members reversed")
         for _ in range(r.randrange(1, 4)):
             d2, p2, desc, mv = tsgen.rewrite_program(d2, p2, r)
             descs.append(desc)
@@ -243,6 +264,18 @@ def check(run):
                 if "error" not in e[0] and "error" not in e[1] and e[0][w["parser"]]["hash256"] != e[1][w["parser"]]["hash256"]:
                     run.known("class=%s %s" % (kf["class"], kf["what"]))
                     cov["known_findings_reproduced"].append(kf["class"])
+        elif kf.get("kind") == "fixed":
+            # a repaired defect: both sides must compile and describe the same type; the failure coming back is a violation
+            w = eval(kf["witness"], {"__builtins__": {}}, {"None": None, "True": True, "False": False})
+            rr = cstage.compile_projects([[("entry.ts", w["a"])], [("entry.ts", w["b"])]])
+            back = [x.get("outcome") for x in rr] != ["code", "code"]
+            if not back:
+                e = cstage.eval_modules([(rr[0]["code"], {w["parser"]: []}, []), (rr[1]["code"], {w["parser"]: []}, [])])
+                back = "error" in e[0] or "error" in e[1] or e[0][w["parser"]]["hash256"] != e[1][w["parser"]]["hash256"]
+            cov.setdefault("fixed_witnesses_replayed", []).append(kf["class"])
+            if back:
+                fails.append(("fixed-finding-returned-" + kf["class"], {"witness": w, "outcomes": [x.get("outcome") for x in rr],
+                                                                        "fixed_by": kf.get("commit")}))
     if not ok:
         run.violation("proof", {"what": run.proof_broken, "theorems": THEOREMS}, no_input=not fails)
     for i, (kind, payload) in enumerate(fails[:5]):
